@@ -5,6 +5,7 @@ import (
 	"encoding/hex"
 	"fmt"
 	"runtime"
+	"strings"
 	"time"
 
 	p9p "github.com/frobnitzem/go-p9p"
@@ -25,7 +26,7 @@ func init() {
 		ID:    "C04",
 		Level: "exploration",
 		Rule: "byte strings fed to Codec.Unmarshal(*Fcall), Codec.Unmarshal(*Dir) and DecodeDir: valid encodings of all 27 kinds and structure-aware mutations of them — every length/count field (located by the reference codec's field map) replaced by " +
-			"{0,1,true+-1,0x7FFF,0x8000,0xFFFE,0xFFFF,2^31,2^32-1,rnd}, truncation at every byte, random extension, type byte swept 0-255, runs of 1/2/4/8 bytes overwritten with boundary patterns at every offset, pure random strings of 0-64 bytes; " +
+			"{0,1,true+-1,0x7FFF,0x8000,0xFFFE,0xFFFF,2^31,2^32-1,rnd}, truncation at every byte, random extension, type byte swept 0-255, runs of 1/2/4/8 bytes overwritten with boundary patterns at every offset, pure random strings of 0-64 bytes, messages and directory entries carrying one string of 20 000-65 535 bytes in six flavours of valid/invalid UTF-8; " +
 			"DecodeDir's size field swept over all 65536 values on a short body (that sub-space is exhaustive). Oracle: no panic (recovered in-process; a fatal error kills the child and is attributed through the case log), " +
 			fmt.Sprintf("TotalAlloc delta around the call <= %d + %d*len(input) (re-measured twice, minimum taken), and whenever decoding succeeds decode(encode(v)) == v. ", c04C, c04K) +
 			"non-trivial = input is not a canonical valid encoding and has >= 3 bytes; distinct by hash of the input",
@@ -37,7 +38,7 @@ func init() {
 		Timeout:    timeouts(5*time.Minute, 30*time.Minute),
 		MinEvals:   5000,
 		MemLimitMB: 3072,
-		Required:   []string{"outcome:error", "outcome:success-stable", "class:valid", "class:lenfield", "class:truncate", "class:extend", "class:typebyte", "class:overwrite", "class:random", "class:dirsize-sweep", "decodedir_calls", "alloc_measurements"},
+		Required:   []string{"outcome:error", "outcome:success-stable", "class:valid", "class:lenfield", "class:truncate", "class:extend", "class:typebyte", "class:overwrite", "class:random", "class:longstring", "class:dirsize-sweep", "decodedir_calls", "alloc_measurements"},
 		Run:        runC04,
 	})
 }
@@ -296,6 +297,66 @@ func runC04(w *mon.W) {
 					c.tryDir(x, "lenfield", false)
 				}
 			}
+		}
+	}
+	// long strings of every flavour of (in)valid UTF-8: whatever a decoder does to a string must
+	// survive the re-encoding into a 16-bit length prefix and, inside a stat, a 16-bit size
+	nl := w.Scale(160, 6000)
+	for i := 0; i < nl; i++ {
+		if !w.Mine(i) {
+			continue
+		}
+		lens := []int{21845, 21846, 32767, 32768, 43000, 65535 - 60, 65535, 20000 + w.Rng.Intn(45536)}
+		n := lens[w.Rng.Intn(len(lens))]
+		b := make([]byte, n)
+		switch w.Rng.Intn(6) {
+		case 0:
+			for k := range b {
+				b[k] = 0xFF
+			}
+		case 1:
+			for k := range b {
+				b[k] = []byte{'a', 0xFF}[k%2]
+			}
+		case 2:
+			w.Rng.Read(b)
+		case 3:
+			copy(b, strings.Repeat("é€", n/5+1)) // valid multi-byte text, possibly cut inside a rune at the end
+		case 4:
+			for k := range b {
+				b[k] = []byte{0xC3, 0x28, 0xE2, 0x82, 0x00, 0x80}[k%6]
+			}
+		default:
+			for k := range b {
+				b[k] = 'x'
+			}
+			b[w.Rng.Intn(n)] = 0x80
+		}
+		str := string(b)
+		var fc *p9p.Fcall
+		switch w.Rng.Intn(6) {
+		case 0:
+			fc = &p9p.Fcall{Type: p9p.Rerror, Tag: 1, Message: p9p.MessageRerror{Ename: str}}
+		case 1:
+			fc = &p9p.Fcall{Type: p9p.Tversion, Tag: p9p.NOTAG, Message: p9p.MessageTversion{MSize: 8192, Version: str}}
+		case 2:
+			fc = &p9p.Fcall{Type: p9p.Tattach, Tag: 1, Message: p9p.MessageTattach{Fid: 1, Afid: p9p.NOFID, Uname: "u", Aname: str}}
+		case 3:
+			fc = &p9p.Fcall{Type: p9p.Twalk, Tag: 1, Message: p9p.MessageTwalk{Fid: 1, Newfid: 2, Wnames: []string{"a", str}}}
+		case 4:
+			fc = &p9p.Fcall{Type: p9p.Tcreate, Tag: 1, Message: p9p.MessageTcreate{Fid: 1, Name: str, Perm: 0644}}
+		default:
+			if len(str) > 65535-49-3 {
+				str = str[:65535-49-3]
+			}
+			d := p9p.Dir{Name: str, UID: "u", GID: "g", MUID: "m"}
+			if sb, err := refcodec.EncodeStat(d); err == nil {
+				c.tryDir(sb, "longstring", true)
+			}
+			fc = &p9p.Fcall{Type: p9p.Rstat, Tag: 1, Message: p9p.MessageRstat{Stat: d}}
+		}
+		if body, _, err := refcodec.EncodeMap(fc); err == nil {
+			c.tryFcall(body, "longstring", true)
 		}
 	}
 	// pure random strings
